@@ -484,24 +484,24 @@ type Contract struct {
 	// loop clauses for the loops of callees inlined into this function ("loop 1 in (*seqbag).IterateAll",
 	// optionally "...#2" = only the 2nd inlining of that callee): key = callee key [+ "#k"]. Naming a callee here
 	// asks for it to be inlined in this function even when it has a contract of its own.
-	InlLoops    map[string]map[int]*LoopContract
-	Inline      bool
-	Trusted     bool // assumed contract (body not verified)
-	TrustWhy    string
-	Arith       string    // "" (math) or "wrap64"
-	Float       string    // "" (exact reals) or "xreal" (extended reals with NaN/Inf)
-	Asserts     []*Clause // assert_at
-	ChanInvs    []*Clause // chaninv <elem type> : P(elem)   assumed at every receive, proved at every send of a channel of that element type
-	Hints       []*Clause // proved at every return with the locals in scope, then assumed for the postconditions (not visible to callers)
-	Covers      []*Clause
-	Line        int
-	File        string
-	Notes       []string
-	MayPanic    bool // explicit panics allowed (documented behaviour)
-	NoTerm      bool
-	Params      []string // for extern contracts: parameter names
-	AllowExit   bool
-	MakeLimit   bool // opt-in: every make([]T, n) must also prove n*sizeof(T) <= 2^48 (runtime allocation limit)
+	InlLoops  map[string]map[int]*LoopContract
+	Inline    bool
+	Trusted   bool // assumed contract (body not verified)
+	TrustWhy  string
+	Arith     string    // "" (math) or "wrap64"
+	Float     string    // "" (exact reals) or "xreal" (extended reals with NaN/Inf)
+	Asserts   []*Clause // assert_at
+	ChanInvs  []*Clause // chaninv <elem type> : P(elem)   assumed at every receive, proved at every send of a channel of that element type
+	Hints     []*Clause // proved at every return with the locals in scope, then assumed for the postconditions (not visible to callers)
+	Covers    []*Clause
+	Line      int
+	File      string
+	Notes     []string
+	MayPanic  bool // explicit panics allowed (documented behaviour)
+	NoTerm    bool
+	Params    []string // for extern contracts: parameter names
+	AllowExit bool
+	MakeLimit bool // opt-in: every make([]T, n) must also prove n*sizeof(T) <= 2^48 (runtime allocation limit)
 }
 
 type PureFunc struct {
